@@ -174,7 +174,9 @@ def intended_tables(rep, shapes):
     return tabs, None
 
 
-ZEBRA_OPS = ("residualGive", "smootherTake", "xsmootherTake", "residualTake", "smootherGive", "xsmootherGive")
+ZEBRA_OPS = ("residualGive", "smootherTake", "xsmootherTake", "residualTake", "smootherGive", "xsmootherGive", "directGiveAsm", "smootherGiveAsm", "xsmootherGiveAsm")
+# the give assemblies run under the mark "assembly": the LAST parallel region of each file is the 3-colour sweep (the regions before it allocate / zero the matrices)
+ASM_FILES = {"directGiveAsm": "DirectSolverGiveCustomLU/buildSolverMatrix.cpp", "smootherGiveAsm": "/SmootherGive/buildMatrix.cpp", "xsmootherGiveAsm": "ExtrapolatedSmootherGive/buildAscMatrices.cpp"}
 
 
 def record_ops(nr, nt, nc, dirbc, threads):
@@ -210,10 +212,15 @@ def observe_ops(nr, nt, nc, dirbc, threads, rec=None):
             continue
         ops.setdefault(cur, []).append(l)
     out = {}
+    for aop, f in ASM_FILES.items():
+        mine = [it for it in ops.get("assembly", []) if f in it.get("f", "")]
+        if mine:
+            last = max(it.get("reg", 0) for it in mine)
+            ops[aop] = [it for it in mine if it.get("reg", 0) == last]
     for op, its in ops.items():
         loops = {}
         own = {"residualGive": "ResidualGive/residualGive.cpp", "smootherTake": "SmootherTake/smootherSolver.cpp",
-               "xsmootherTake": "ExtrapolatedSmootherTake/smootherSolver.cpp", "residualTake": "ResidualTake/residualTake.cpp", "smootherGive": "/SmootherGive/smootherSolver.cpp", "xsmootherGive": "ExtrapolatedSmootherGive/smootherSolver.cpp"}.get(op, "@")
+               "xsmootherTake": "ExtrapolatedSmootherTake/smootherSolver.cpp", "residualTake": "ResidualTake/residualTake.cpp", "smootherGive": "/SmootherGive/smootherSolver.cpp", "xsmootherGive": "ExtrapolatedSmootherGive/smootherSolver.cpp", **ASM_FILES}.get(op, "@")
         for it in its:
             if own not in it["f"]:
                 continue      # helper regions (vector copies) are separate parallel regions
